@@ -18,7 +18,8 @@ META = {
             "caller overwriting between any two calls every buffer it passed in or was given - contents and results "
             "depend on the history of calls alone, for the copy points extracted from mem_entry.go. Several handles "
             "over the tables of one database (pisces.Tables) with the table life cycle refine per-table reference "
-            "maps; calls leave other tables alone; a table used through several handles is one store. Models are "
+            "maps; calls leave other tables alone; a table used through several handles is one store; a walk releases "
+            "its result set however it ends. Models are "
             "tied to the code by statement tables, the table scheme and the copy-point skeleton re-extracted from the "
             "Go source on every run and by differential histories on the real memory and sqlite backends "
             "evaluated inside Coq.",
@@ -39,8 +40,9 @@ SEMANTIC_TIE = code_tie.functions("C05")   # Go bodies proved equal to the model
 
 ERR = {"not_found": "ENotFound", "exists": "EExists", "key_too_long": "EKeyTooLong", "decode": "EDecode",
        "user": "EUser", "unordered": "EUnordered", "cancel": "ECancel", "other": "EOther", "panic": "EPanic",
-       "upanic": "EPanic"}   # upanic: the user callback's own panic value came back out of the call
-BAD = ("other", "panic", "hang", "partial-modified", "caller-memory-written")
+       "upanic": "EPanic",   # upanic: the user callback's own panic value came back out of the call
+       "busy": "EBusy"}      # nothing else is in progress in these histories: never a legitimate answer
+BAD = ("other", "panic", "hang", "partial-modified", "caller-memory-written", "busy")
 LIFE = ("create", "createmissing", "destroy", "tcreate", "tcreatemissing", "tdestroy")
 
 # long byte strings of a case: "hh*n" pieces joined by '+' in arguments, "@len:sha256" in observations
@@ -610,6 +612,13 @@ def run(ck):
         for key, what, replay in impl_oracle(c):
             failing.add(c["i"])
             ck.violation(key, what, replay)
+        if c.get("setup_err"):
+            prev = cases[cases.index(c) - 1] if cases.index(c) > 0 else c
+            ck.violation("impl:locked-after-history:" + c["setup_err"].split(":")[0],
+                         "a table could not be dropped / created on the sqlite database after a history had ended "
+                         "(%s): a call of that history left a lock or a transaction behind" % c["setup_err"],
+                         {"history_before": prev["ops"], "this_history": c["ops"],
+                          "expected": "when every call has returned nothing of it remains"})
     single = [c for c in cases if not c.get("multi")]
     for c in single[:1] + single[20:22]:
         ck.sample({"stream": c["stream"], "ops": c["ops"][:6], "obs_mem_ordered": c["obs"]["mo"][:6],
@@ -721,7 +730,8 @@ def run(ck):
                  "modelled not verified: SQLite statement semantics, BINARY collation, NOT NULL / UNIQUE; Go map and sort; "
                  "bytes.Buffer (Write copies, NewBuffer adopts) and the sqlite driver copying bound and scanned []byte",
                  "psql_kv.go only through its generated statement table (PostgreSQL cannot run here)"],
-        rule="fixed corpora first (known disagreements, window edges, classes/values/key limits, callback shapes, all "
+        rule="fixed corpora first (known disagreements, window edges, classes/values/key limits, callback shapes, walks "
+             "that end early followed by every writer, all "
              "ordered pairs of 13 writers x 20 readers, value sizes around 64 B / 256 B / 4 KiB / 64 KiB / 1 MiB / 3 MiB, "
              "multi-handle life cycle), then generated multi-handle histories (2-4 handles over 1-4 tables of one "
              "file or of memory table sets, life cycle calls sprinkled in) and "
